@@ -63,7 +63,7 @@ def clean():
 
 
 def restore():
-    sh("git -C %s checkout -- ." % REPO)
+    sh("git -C %s reset -q --hard HEAD" % REPO)
     sh("git -C %s clean -fdq -- src build" % REPO)
 
 
@@ -118,6 +118,12 @@ def main():
                 p = "/tmp/_sweep_rev.diff"
                 open(p, "w").write(rp)
                 ap = sh("git -C %s apply %s" % (REPO, p))
+                if ap.returncode != 0:
+                    # later commits moved the context: try a three-way merge of the reverse patch
+                    restore()
+                    ap = sh("git -C %s apply -3 %s" % (REPO, p))
+                    if ap.returncode == 0:
+                        sh("git -C %s reset -q" % REPO)      # keep the change in the working tree only
                 if ap.returncode != 0:
                     restore()
                     matrix["fixes"][commit] = {"property": prop, "applies_on_head": False, "head": head}
